@@ -2,6 +2,7 @@ import FeatModel.Model.Proto
 import FeatModel.Model.Solver.Control
 import FeatModel.Model.Solver.Krylov
 import FeatModel.Model.Solver.BiCGStab
+import FeatModel.Model.Solver.Session
 import FeatModel.Model.Solver.RatVec
 /-! line-protocol driver for the C07 models (convergence control; PCG / Richardson / PCR / PMR / BiCGStab sessions) -/
 open FeatModel FeatModel.Proto FeatModel.Solver
@@ -49,7 +50,7 @@ def ctlOp : P String := do
   let ds ← listOf defTok
   let c := mkCfg tolRel tolAbs tolAbsLow divRel divAbs stagRate minIter maxIter minStag skip
     (plotMode == 1 || plotMode == 3) plotInt
-  match runControl c (variant != 0) ds with
+  match runControl c (variant != 0) freshState ds with
   | (_, none) => pure "S 0 0 0 0/1 0/1 0/1 0"
   | (sts, some (s, _)) =>
     let initFin := match ds with
@@ -94,31 +95,23 @@ def solveOp : P String := do
   let c := mkCfg tolRel tolAbs tolAbsLow divRel divAbs stagRate minIter maxIter minStag skip false 1
   let S := ratSys A mask pre
   let ns ← nat
-  let mut outs : List String := []
-  let mut aborted := false
-  -- members as initialised by the IterativeSolver constructor
-  let mut prev : State Rat := { defInit := 0, defCur := 0, defPrev := 0, numIter := 0, numStag := 0, curFin := true }
+  let mut solves : List (Bool × RVec n × RVec n) := []
   for _ in List.range ns do
     let mode ← tok
     let x0 ← vecP n
     let b ← vecP n
     let _re ← nat
-    let isApply := mode = "a"
-    let res : Option (Option (Result (RVec n) Rat)) :=
-      match kind with
-      | "pcg" => some (if isApply then pcgApply S c b else pcgCorrect S c x0 b)
-      | "rich" => some (if isApply then richApply S c omega b else richCorrect S c omega x0 b)
-      | "pcr" => some (if isApply then pcrApply S c b else pcrCorrect S c x0 b)
-      | "pmr" => some (if isApply then pmrApply S c b else pmrCorrect S c x0 b)
-      | "bicgstab" => some (if isApply then bicgApply S c prev b else bicgCorrect S c prev x0 b)
-      | _ => none
-    match res with
-    | none => throw s!"unknown solver {kind}"
-    | some none => aborted := true
-    | some (some r) =>
-      outs := outs ++ [showResult r]
-      prev := r.st
-  if aborted then pure "ABORT" else pure (" | ".intercalate outs)
+    solves := solves ++ [(decide (mode = "a"), x0, b)]
+  let k : Option Kind := match kind with
+    | "pcg" => some .pcg | "rich" => some .rich | "pcr" => some .pcr | "pmr" => some .pmr
+    | "pcgnr" => some .pcgnr | "bicgstab" => some .bicgstab | _ => none
+  match k with
+  | none => throw s!"unknown solver {kind}"
+  | some k =>
+    -- one persistent solver object; its control members start as the IterativeSolver constructor leaves them
+    match runSession k S c omega freshState solves with
+    | none => pure "ABORT"
+    | some rs => pure (" | ".intercalate (rs.map showResult))
 
 def handle : P String := do
   let op ← tok
